@@ -125,3 +125,20 @@ PROPS["C15"] = dict(
          "location histories; each offset is a distinct non-trivial case",
     exhaustive_note="every byte offset of every generated file",
 )
+
+PROPS["C03"] = dict(
+    level="proof",
+    technique="Lean 4 theorems (both Wick rewriting steps — swap and contraction — preserve the Spec action inside any "
+              "operator string; numeric elements = Spec matrix elements through iota) + exact element-by-element "
+              "correspondence of every returned tensor with <bra|pattern|ket> from the Spec driver on both code paths",
+    text="Each returned tensor (normal-ordered and arbitrarily reordered patterns of rank 1-3 quick / 1-4 thorough, diagonal "
+         "and transition, unnormalised states, spin-summed and spin-orbital) is compared exactly with the Spec matrix "
+         "elements computed in Lean; numeric-index elements and Hamiltonian expectation values (also as tensor.RDM "
+         "contractions) likewise. The soundness of the reordering rules the library relies on is proved for every "
+         "determinant and every context.",
+    note="Lean kernel; the D-vector formulas of rdm1..rdm1234 and the Wick driver loop are not modelled function by "
+         "function: their outputs are compared with Spec (norb<=3, rank<=3 quick; rank 4 at norb=2 thorough).",
+    design_ref="DESIGN.md §5 C03",
+    rule="cases = (wavefunction kind, rank, pattern ordering, bra=ket or transition) tensors, numeric elements, "
+         "Hamiltonian expectation values; every case compares a full tensor; distinct by (case index, pattern)",
+)
